@@ -357,6 +357,46 @@ def t_verify(T):
         (T.ok if s_ in seen else T.fail)(f"{key}#paths.{s_}-exists", *([] if s_ in seen else ["no such path"]), kind="raises")
 
 
+def t_verify_history(T):
+    """verify -> the workspace object is modified in place -> verify again: the second call must look at the digests of the
+    workspace as it is NOW (nothing remembered from the first call)"""
+    key = f"{PS}::PatchSet.verify"
+    DIGV = z3.Function("digest_of_version", Obj, Obj, z3.IntSort(), Obj)
+    state = {"version": 0}
+
+    def digest_contract(eng, call):
+        alg = call.kwargs.get("algorithm", call.args[1] if len(call.args) > 1 else "sha256")
+        return DIGV(call.args[0], eng.box(alg), z3.IntVal(state["version"]))
+    eng = T.engine({"utils.py::digest": digest_contract, "schema/validator.py::validate": lambda e, c: None,
+                    "inline": [f"{PS}::PatchSet."], f"{PS}::Patch": patch_ctor_contract})
+    cls = eng.module(PS).get("PatchSet")
+    box = {}
+
+    def thunk():
+        state["version"] = 0
+        ws = eng.obj("ws")
+        d1, d2 = eng.obj("recorded_md5"), eng.obj("recorded_sha256")
+        doc = {"metadata": {"digests": {"md5": d1, "sha256": d2}, "labels": ["x"], "description": "d", "references": {}}, "patches": [], "version": "1.0.0"}
+        ps = eng.instantiate(cls, [doc], {})
+        eng.call(eng.getattr(ps, "verify"), [ws], {})
+        n1 = len(eng.path.calls)
+        state["version"] = 1            # ghost event: the same workspace object is changed in place
+        box.update(ws=ws, d1=d1, d2=d2, n1=n1)
+        eng.call(eng.getattr(ps, "verify"), [ws], {})
+        return True
+    results = eng.explore(thunk)
+    T.absorb(eng, results)
+    n_second = 0
+    for k, r in enumerate(results):
+        if r.kind != "return":
+            continue                    # a raising verify is fine; only acceptance has to be justified
+        n_second += 1
+        ws, d1, d2 = box["ws"], box["d1"], box["d2"]
+        goal = z3.And(DIGV(ws, eng.box("md5"), z3.IntVal(1)) == d1, DIGV(ws, eng.box("sha256"), z3.IntVal(1)) == d2)
+        T.ob_path(eng, f"{key}#post.second-call-judges-the-workspace-as-it-is-now@path{k}", r, goal, history=True)
+    (T.ok if n_second else T.fail)(f"{key}#paths.history-return-exists", *([] if n_second else ["no accepting path"]), kind="raises")
+
+
 def t_apply(T):
     key = f"{PS}::PatchSet.apply"
     exc = {}
@@ -487,7 +527,7 @@ def _occurs(value, sym):
 
 def tasks(tier):
     return [("Patch", t_patch), ("PatchSet.__init__", t_init), ("PatchSet.__getitem__", t_getitem), ("PatchSet.__len__", t_len_iter),
-            ("PatchSet.verify", t_verify), ("PatchSet.apply", t_apply), ("utils.digest", t_digest)]
+            ("PatchSet.verify", t_verify), ("PatchSet.verify.history", t_verify_history), ("PatchSet.apply", t_apply), ("utils.digest", t_digest)]
 
 
 def replay(r):
@@ -515,6 +555,15 @@ def replay(r):
         "duplicate-values": ([("a", (1, 2)), ("b", (1, 2))], False),
         "wrong-length": ([("a", (1, 2, 3))], False),
     }
+    # a registered patch with an empty operation list is a patch like any other
+    d_empty = doc([("a", (1, 2)), ("b", (3, 4))])
+    d_empty["patches"][0]["patch"] = []
+    try:
+        ps_e = pyhf.PatchSet(d_empty)
+        if ps_e["a"].name != "a" or ps_e[(1, 2)].name != "a" or ps_e[[1, 2]].name != "a":
+            bad["empty-operation-list"] = "wrong patch returned"
+    except Exception as e:
+        bad["empty-operation-list"] = f"patch with an empty operation list not retrievable: {type(e).__name__}"
     for tag, (entries, accept) in battery.items():
         try:
             ps = pyhf.PatchSet(doc(entries))
@@ -555,6 +604,33 @@ def _replay_verify_apply(pyhf):
         return {"metadata": {"references": {"hepdata": "ins1234567"}, "description": "d", "digests": digests, "labels": ["x"]},
                 "patches": [{"metadata": {"name": "p", "values": [1]}, "patch": [{"op": "replace", "path": "/channels/0/samples/0/data", "value": [7.0]}]}],
                 "version": "1.0.0"}
+    # history: verify, corrupt the same object in place, verify again
+    ps_h = pyhf.PatchSet(doc(good))
+    ws_h = copy.deepcopy(ws)
+    ps_h.verify(ws_h)
+    ws_h["channels"][0]["samples"][0]["data"][0] = 6.0
+    try:
+        ps_h.verify(ws_h)
+        bad["verify-after-in-place-corruption"] = "a workspace corrupted in place after a successful verify is still accepted"
+    except PatchSetVerificationError:
+        pass
+    # root replacement and patched observations
+    new_doc = copy.deepcopy(ws)
+    new_doc["observations"][0]["data"] = [3.0]
+    new_doc["channels"][0]["samples"][0]["data"] = [9.0]
+    d_root = doc(good)
+    d_root["patches"] = [{"metadata": {"name": "root", "values": [1]}, "patch": [{"op": "replace", "path": "", "value": new_doc}]},
+                         {"metadata": {"name": "obs", "values": [2]}, "patch": [{"op": "replace", "path": "/observations/0/data", "value": [4.0]}]}]
+    ps_r = pyhf.PatchSet(d_root)
+    out_r = ps_r.apply(ws, "root")
+    if dict(out_r) != new_doc:
+        bad["apply-root-replace"] = "a patch replacing the whole document is not applied"
+    out_o = ps_r.apply(ws, "obs")
+    if list(out_o.data(out_o.model(), include_auxdata=False)) != [4.0]:
+        bad["apply-patched-observations"] = f"the returned workspace does not reflect the patched observations: {list(out_o.data(out_o.model(), include_auxdata=False))}"
+    out_o["observations"][0]["data"][0] = 99.0
+    if list(ps_r.apply(ws, "obs")["observations"][0]["data"]) != [4.0]:
+        bad["apply-aliasing"] = "modifying a returned workspace changes what the patch produces next time"
     for tag, digests, accept in (("all-match", good, True), ("md5-wrong", dict(good, md5="0" * 32), False), ("sha256-wrong", dict(good, sha256="0" * 64), False),
                                  ("only-md5-right", {"md5": good["md5"]}, True)):
         ps = pyhf.PatchSet(doc(digests))
